@@ -1176,22 +1176,96 @@ theorem nh_resize {p : P} {L : Nat → Nat} (j : JA p L) (s newLen : Nat)
           refine NH.bind (nh_chainSetLen .zero newLen t2) ?_
           intro r2 _; exact NH.ok _
 
+/-! ## the migration of a regular chain into the mini stream -/
+
+theorem freeChain_fatsize (fuel : Nat) : ∀ {p p' : P} {cur : Nat}, freeChain p fuel cur = .ok p' → p'.fat.size = p.fat.size := by
+  induction fuel with
+  | zero => intro p p' cur h; simp [freeChain] at h
+  | succ fuel ih =>
+    intro p p' cur h
+    unfold freeChain at h
+    split at h
+    · cases h; rfl
+    · split at h
+      · cases h
+      · rename_i next hn
+        have hlt := (nextSector_ok hn).1
+        split at h
+        · cases h
+        · split at h
+          · rename_i p1 hs
+            have e : p1.fat.size = p.fat.size := by
+              rcases setFat_ok hs with ⟨hi, _⟩ | ⟨_, he⟩
+              · omega
+              · subst he; simp
+            have := ih h
+            rw [← e]; exact this
+          · cases h
+          · cases h
+          · cases h
+
+/-- after `free_chain` of a stream's regular chain the two container chains are as walkable as before -/
+theorem mw_after_freeChainFrom {p p1 : P} {L : Nat → Nat} (j : JR p L) {s : Nat} (hreg : CUTOFF ≤ L s)
+    (hs : startOf p s ≠ END) (h : freeChainFrom p (startOf p s) = .ok p1) : MW p1 ∧ p1.fat.size = p.fat.size := by
+  have hsz : p1.fat.size = p.fat.size := freeChain_fatsize _ h
+  have hb : p.fat.size ≤ MAXREG + 1 := j.jc.nc.ns.bound
+  have n0 := jc_n0 j.jc s
+  have hown : ownOf p.starts L s = [startOf p s] := by
+    unfold ownOf; rw [if_pos ⟨hreg, hs⟩]; rfl
+  rw [hown] at n0
+  have n1 : NC p.fat (hd1 (startOf p s) ++ (cont p ++ regs (others p.starts s) L)) := by
+    refine n0.perm ?_
+    unfold hd1
+    rw [if_neg hs]
+    rw [List.append_assoc]
+    exact List.perm_middle
+  have n2 := (kc_freeChainFrom h).keep (by omega) j.jc.inv _ n1
+  have sf := sf_freeChain _ h
+  have inv1 : Inv p1 := (good_freeChainFrom h).inv j.jc.inv (small_of_bound (by omega))
+  have n3 : NC p1.fat (cont p1 ++ regs (others p.starts s) L) := by
+    rw [cont_of_sf sf]; simpa using n2
+  exact ⟨mw_of_nc inv1 n3, hsz⟩
+
+theorem nh_resize_intoMini {p : P} {L : Nat → Nat} (j : JA p L) (s newLen : Nat) (hreg : CUTOFF ≤ L s)
+    (hpos : 0 < newLen) (hlt : newLen < CUTOFF) (hroom : p.fat.size + 6 * 4200 ≤ MAXREG + 1) :
+    NH (resize p s (L s) newLen) := by
+  unfold resize
+  dsimp only
+  by_cases hs : startOf p s = END
+  · simp only [hs, if_true]
+    have : L s ≠ 0 := by have := CUTOFF_pos; omega
+    simp only [this, ne_eq, not_false_eq_true, if_true]
+    exact NH.bad
+  · have h1 : ¬ L s < CUTOFF := by omega
+    have h2 : newLen ≠ 0 := by omega
+    simp only [hs, if_false, h1, h2, hlt, if_true]
+    obtain ⟨ids, hw, _, _⟩ := reg_walk j.jr hreg hs
+    rw [hw]
+    refine NH.bind (NH.ok _) ?_
+    intro ids0 he
+    cases he
+    refine NH.bind (nh_chainRead _ p ids 0 newLen [] (by omega)) ?_
+    intro tmp htmp
+    have hlen : tmp.length = newLen := by
+      have := chainRead_len j.jr.ss _ htmp
+      simpa using this
+    refine NH.bind (nh_freeChainFrom _ _) ?_
+    intro p1 hf
+    obtain ⟨w1, hsz⟩ := mw_after_freeChainFrom j.jr hreg hs hf
+    have hc : CUTOFF = 4096 := by decide
+    refine NH.bind (mw_miniChainWrite _ p1 [] 0 tmp w1 (MT.nil p1) (by omega) (by omega)).1 ?_
+    intro r _; exact NH.ok _
+
 /-! ## the store machine -/
 
 /-- FAT cells an operation may add, in units of six (one new mini sector can cost a MiniFAT sector, a
 sector of the mini stream, and a FAT and a DIFAT sector for each) -/
 def opCost : GOp → Nat
   | .write _ _ bs => bs.length + 2
-  | .resize _ _ => 200
+  | .resize _ _ => 4200
   | _ => 0
 
-/-- the one operation that is not covered: shrinking a stream of at least 4096 bytes to a non-zero
-length below 4096 (the migration of a regular chain into the mini stream) -/
-def IntoMini (g : G) : GOp → Prop
-  | .resize s n => CUTOFF ≤ g.L s ∧ 0 < n ∧ n < CUTOFF
-  | _ => False
-
-theorem nh_gstep {g : G} (j : JA g.p g.L) (op : GOp) (hx : ¬ IntoMini g op)
+theorem nh_gstep {g : G} (j : JA g.p g.L) (op : GOp)
     (hroom : g.p.fat.size + 6 * opCost op ≤ MAXREG + 1) : NH (gstep g op) := by
   cases op with
   | ensure s => exact NH.obind (nh_ensureDirSlot j.jr.jc s) (fun _ _ => NH.ok _)
@@ -1201,21 +1275,25 @@ theorem nh_gstep {g : G} (j : JA g.p g.L) (op : GOp) (hx : ¬ IntoMini g op)
     · exact NH.ok _
     · exact NH.err _
   | write s off bs => exact NH.obind (nh_writeData j s off bs hroom) (fun _ _ => NH.ok _)
-  | resize s n => exact NH.obind (nh_resize j s n hx hroom) (fun _ _ => NH.ok _)
+  | resize s n =>
+    have hroom' : g.p.fat.size + 6 * 4200 ≤ MAXREG + 1 := hroom
+    by_cases hx : CUTOFF ≤ g.L s ∧ 0 < n ∧ n < CUTOFF
+    · exact NH.obind (nh_resize_intoMini j s n hx.1 hx.2.1 hx.2.2 hroom') (fun _ _ => NH.ok _)
+    · exact NH.obind (nh_resize j s n hx (by omega)) (fun _ _ => NH.ok _)
   | free s => exact NH.obind (nh_freeStream j s) (fun _ _ => NH.ok _)
   | reopen => exact NH.obind (nh_reopen j.jr.jc) (fun _ _ => NH.ok _)
 
 /-- **in every state reachable by store operations and reopens, no store operation hangs** — for all
 arguments, as long as the file has room inside the format's range of sector numbers for what the
-operation may add; except the migration of a regular chain into the mini stream (`IntoMini`) -/
+operation may add -/
 theorem store_ops_never_hang (v4 : Bool) (ops : List GOp) (op : GOp) :
     let g0 : G := { p := Phys.create v4, L := fun _ => 0 }
     WritesInRange g0 ops → MiniBounded g0 ops →
     let g := grun g0 ops
-    ¬ IntoMini g op → g.p.fat.size + 6 * opCost op ≤ MAXREG + 1 → NH (gstep g op) := by
-  intro g0 hw hm g hx hroom
+    g.p.fat.size + 6 * opCost op ≤ MAXREG + 1 → NH (gstep g op) := by
+  intro g0 hw hm g hroom
   have hb : g.p.fat.size ≤ MAXREG + 1 := by omega
   have j : JA g.p g.L := lengths_reachable v4 ops hw hm hb
-  exact nh_gstep j op hx hroom
+  exact nh_gstep j op hroom
 
 end CfbVerif.Phys
